@@ -18,9 +18,8 @@
 //!   `lines <hex>` | `splitws <hex>` | `join <hex sep> <list>` | `starts <hex s> <hex p>` | `slice <hex s> <hex p>`
 use std::io::{BufRead, Write};
 
-#[allow(dead_code)]
-#[path = "/repo/crates/test/src/config.rs"]
-mod config;
+// `mod config` = the working-tree file crates/test/src/config.rs of /repo (or of the copy named by VERIF_REPO), see build.rs
+include!(concat!(env!("OUT_DIR"), "/config_mod.rs"));
 
 fn hex(s: &str) -> String {
     if s.is_empty() {
